@@ -5,6 +5,7 @@ package verifharness_test
 import (
 	"fmt"
 	"math/rand/v2"
+	"sort"
 	"testing"
 
 	"github.com/jub0bs/cors"
@@ -317,6 +318,45 @@ func TestVerif_C15(t *testing.T) {
 				l.NontrivialKey(name, sp, fmt.Sprint(asResp))
 				l.counters["twins_well-known-name"]++
 			}
+		}
+	})
+	// ---- one host listed with n discrete ports (n around 8, 16, 32, 64): ascending order against descending / shuffled order
+	// (lesson of seeded change C15-o)
+	portCounts := []int{5, 7, 8, 9, 15, 16, 17, 31, 32, 33, 64, 65}
+	r.Parallel(len(portCounts), func(l *Local) {
+		n := portCounts[l.Batch]
+		mk := func(ports []int) *CfgSpec {
+			c := &CfgSpec{Methods: []MAtom{validMethodAtoms[0]}, MaxAge: 600}
+			for _, p := range ports {
+				c.Origins = append(c.Origins, oPat(PatSpec{Scheme: "http", Host: "localhost", Port: p}, false, false))
+			}
+			return c
+		}
+		asc := make([]int, n)
+		for i := range asc {
+			asc[i] = 3000 + 101*i
+		}
+		c := mk(asc)
+		m, err := cors.NewMiddleware(c.Config())
+		if err != nil {
+			return
+		}
+		suite := suiteFor(c.Sem())
+		base := runSuite(m, suite, false)
+		for k := 0; k < 6; k++ {
+			perm := append([]int(nil), asc...)
+			switch k {
+			case 0:
+				sort.Sort(sort.Reverse(sort.IntSlice(perm)))
+			case 1:
+				perm = append(perm[1:], perm[0])
+			default:
+				l.Rng.Shuffle(len(perm), func(i, j int) { perm[i], perm[j] = perm[j], perm[i] })
+			}
+			tw := mk(perm)
+			c15Run(r, l, c, tw, fmt.Sprintf("%d ports of one host in another order", n), suite, base)
+			l.NontrivialKey(fmt.Sprint(perm))
+			l.counters["twins_port-order"]++
 		}
 	})
 	r.Exhaustive("for every visited configuration: all permutations of each list of length <= 4; every name of a 96-name corpus of well-known header names, canonical spelling vs lower / upper / one-upper / mixed case, as request and as response header")
